@@ -22,6 +22,19 @@ C->S : NIfTI files with exactly known rational affines (signed permutations,
        * one loaded image object used for several generations (every info
          case): nibabel_image_to_info, again with the other sharding choice,
          then store_nibabel_image_to_fullres_info - every result is judged;
+       * declared spatial unit: files whose header declares micron, meter, mm
+         or no unit (xyzt_units).  The package reads every affine as
+         millimetres (documented in nibabel_image_to_info); weaker reading
+         adopted: for a file declaring another unit BOTH conventions are
+         accepted - everything as millimetres or everything in the declared
+         unit - but resolution, transform columns and translation must follow
+         the SAME convention (Trace_Affine judges the clause chain under each
+         admissible unit);
+       * kind "history": several generations in ONE process from ONE file path
+         through the tool's main and volume_reader.volume_file_to_info - the
+         file replaced between the calls (other file / corrected header),
+         ignore_scaling alternating on a header-scaled integer file; every
+         call is judged against the file as it is on disk at that time;
        * kind "rerun": --generate-info twice on one destination with two
          different volumes (other file, or same data with a corrected header),
          the destination holding the first pair / only transform.json / only
@@ -50,7 +63,9 @@ RULE = ("one evaluation = one file through --generate-info and nibabel_image_to_
         "judges 4 generations (tool, API, the same image object again with the other sharding choice, "
         "the storing function on that object); a rerun evaluation = two tool runs on one destination "
         "with two volumes of different affines, distinct = distinct (volume 1, volume 2, destination "
-        "state before the second run) tuples")
+        "state before the second run) tuples; a history evaluation = 2-3 generations in one process "
+        "from one file path (file replaced / ignore_scaling alternated between them), distinct = "
+        "distinct step lists")
 
 
 def signed_perms():
@@ -181,6 +196,64 @@ def make_zoom_plan(rng, nrng, kind, sp):
     return p, data
 
 
+XYZT_UNITS = ["micron", "meter", "mm", "unknown"]
+
+
+def make_unit_plan(rng, nrng, kind, sp, unit):
+    """a file that declares its spatial unit in the header (xyzt_units)"""
+    p, data = make_plan(rng, nrng, kind, sp)
+    p["xyzt"] = unit
+    return p, data
+
+
+def make_history(rng, nrng, sp, style):
+    """step list for affine_driver.run_samepath_case"""
+    via = lambda: rng.choice(["main", "api"])                     # noqa: E731
+    if style == "replaced":
+        variant, p1, d1, p2, d2 = make_rerun_plans(rng, nrng, sp)
+        steps = [{"plan": p1, "data": d1, "ignore": bool(p1.get("ignore_scaling")), "via": via()},
+                 {"plan": p2, "data": d2, "ignore": bool(p2.get("ignore_scaling")), "via": via()}]
+        r = rng.random()
+        if r < 0.3:            # the replaced file read once more
+            steps.append({"ignore": steps[1]["ignore"], "via": via()})
+        elif r < 0.5:          # and the first file put back
+            steps.append(dict(steps[0], via=via()))
+        return variant, steps
+    while True:                # header-scaled integer file, ignore_scaling alternating
+        p, data = make_plan(rng, nrng, rng.choice(["perm", "rot", "shear"]), sp)
+        if p.get("slope") is not None and (p["slope"], p["inter"]) != (1.0, 0.0) \
+                and p["dtype"] != "rgb" and np.dtype(p["dtype"]).kind in "iu":
+            break
+    first = rng.random() < 0.7
+    steps = [{"plan": p, "data": data, "ignore": first, "via": via()},
+             {"ignore": not first, "via": via()}]
+    if rng.random() < 0.5:
+        steps.append({"ignore": first, "via": via()})
+    return "scaling_toggle", steps
+
+
+def history_json(steps):
+    out = []
+    for st in steps:
+        q = {"ignore": st["ignore"], "via": st["via"]}
+        if st.get("plan") is not None:
+            q["plan"] = plan_json(st["plan"])
+            q["data"] = data_to_json(st["data"])
+        out.append(q)
+    return out
+
+
+def history_from_json(js):
+    out = []
+    for q in js:
+        st = {"ignore": q["ignore"], "via": q["via"]}
+        if "plan" in q:
+            st["plan"] = plan_from_json(q["plan"])
+            st["data"] = data_from_json(dict(st["plan"], in_dtype=st["plan"]["dtype"]), q["data"])
+        out.append(st)
+    return out
+
+
 GEOMETRY_KEYS = ("kind", "D", "vs", "a", "A", "nifti")
 
 
@@ -236,6 +309,7 @@ def sig_of(p, res, clause, case):
             "nifti_version": p["nifti"], "scaled": p.get("slope") is not None,
             "ignore_scaling": bool(p.get("ignore_scaling")), "sharding": bool(p.get("sharding")),
             "pixdim_disagrees": bool(p.get("pixdim")), "qform": p.get("qform", "same"),
+            "declared_unit": p.get("xyzt", "default"),
             "exc": res.get("exc", ""), "where": res.get("where", ""), "srcs": srcs,
             "nonrat": sorted({n for o in case["obs"] for n in o.get("nonrat", [])})}
 
@@ -276,6 +350,13 @@ def run(ctx):
         "'the info generated from a volume file' covers every generation, also a second or third one "
         "from an image object that was already used (only the sharding option is varied between "
         "them); that the image object itself is left unchanged is NOT demanded",
+        "declared spatial unit (statement silent, weaker reading): a file that declares micron or meter "
+        "may be read entirely as millimetres (what the package documents) or entirely in its declared "
+        "unit; resolution, direction columns and translation must agree on ONE of the two; files "
+        "declaring mm or nothing are read as millimetres",
+        "same-path histories: every generation in a process is judged against the file found at that "
+        "path at the time of the call (content, header scaling mode of THAT call); nothing is demanded "
+        "of files or image objects after the call",
         "reruns on one destination (statement silent, weaker reading): a run that reports success "
         "(no exception, exit 0 or 4) must leave info_fullres.json + transform.json describing the "
         "volume just given; a run that refuses on a destination holding a consistent pair must leave "
@@ -322,6 +403,12 @@ def run(ctx):
     reruns = []
     for k in range(ctx.pick(24, 600)):
         reruns.append((ad.PRE_STATES[k % 3],) + make_rerun_plans(rng2, nrng2, sp))
+    rng3 = random.Random(ctx.seed * 1000003 + 16 + 2 * 7919)
+    nrng3 = ctx.np_rng(3)
+    for k in range(ctx.pick(32, 800)):
+        plans.append(make_unit_plan(rng3, nrng3, ("perm", "rot", "shear")[k % 3], sp, XYZT_UNITS[k % 4]))
+    histories = [make_history(rng3, nrng3, sp, ("replaced", "scaling_toggle")[k % 2])
+                 for k in range(ctx.pick(24, 600))]
     done = []
     transforms = []
     for p, data in plans:
@@ -333,9 +420,14 @@ def run(ctx):
     for (pre, variant, p1, d1, p2, d2) in reruns:
         case, results = ad.run_rerun_case(work, p1, d1, p2, d2, pre)
         rdone.append((pre, variant, p1, d1, p2, d2, case, results))
+    hdone = []
+    for (style, steps) in histories:
+        case, results = ad.run_samepath_case(work, steps)
+        hdone.append((style, steps, case, results))
     cmats = compact_matrices(ctx, transforms[::max(1, len(transforms) // ctx.pick(60, 600))])
     cdone = [(M,) + ad.compact_case(M) for M in cmats]
-    cases = [c for (_, _, c, _) in done] + [c for (_, c, _, _) in cdone] + [r[6] for r in rdone]
+    cases = [c for (_, _, c, _) in done] + [c for (_, c, _, _) in cdone] + [r[6] for r in rdone] \
+        + [h[2] for h in hdone]
     verdicts = ctx.judge("Trace_Affine", cases, workers=12, chunk=3000)
     classes = {}
     for tid, (st, clause, _) in verdicts.items():
@@ -347,7 +439,8 @@ def run(ctx):
             ctx.nontrivial(json.dumps([plan_json(p)[k] for k in ("D", "vs", "a")]
                                       + [case["shape"], p["layout"], p["dtype"], p.get("slope"),
                                          p.get("ignore_scaling"), p.get("sharding")]
-                                      + ([plan_json(p)["pixdim"], p["qform"]] if p.get("pixdim") else [])))
+                                      + ([plan_json(p)["pixdim"], p["qform"]] if p.get("pixdim") else [])
+                                      + ([p["xyzt"]] if p.get("xyzt") else [])))
         st, clause, _ = verdicts[case["tid"]]
         if st != "ok":
             sg = sig_of(p, res, clause, case)
@@ -385,7 +478,24 @@ def run(ctx):
                                      "plan2": plan_json(p2), "data1": data_to_json(d1),
                                      "data2": data_to_json(d2)},
                            "runs": results, "case": case})
+    hist_styles = {}
+    for (style, steps, case, results) in hdone:
+        ctx.count()
+        hj = history_json(steps)
+        ctx.nontrivial(json.dumps(["history", [{k: v for k, v in q.items() if k != "data"} for q in hj]]))
+        hist_styles[style] = hist_styles.get(style, 0) + 1
+        st, clause, _ = verdicts[case["tid"]]
+        if st != "ok":
+            ck = "%s history=%s" % (clause, style)
+            classes[ck] = classes.get(ck, 0) + 1
+            ctx.violation(clause, {"tool": "volume_file_to_info / volume-to-precomputed main, several calls on "
+                                           "one path in one process", "clause": clause, "history": style,
+                                   "steps": [[s_["via"], s_["ignore"], s_["replaced"]] for s_ in case["steps"]],
+                                   "exits": [r.get("exit") for r in results],
+                                   "exc": [r.get("exc", "") for r in results]},
+                          {"history": {"style": style, "steps": hj}, "runs": results, "case": case})
     ctx.notes["violation_classes"] = classes
+    ctx.notes["same_path_histories"] = hist_styles
     ctx.notes["rerun_cases_by_destination_state_and_second_run"] = rerun_outcomes
     ctx.notes["info_cases"] = {
         "total": len(done), "signed_permutations": sum(1 for d in done if d[0]["kind"] == "perm"),
@@ -397,6 +507,7 @@ def run(ctx):
         "with_sharding_option": sum(1 for d in done if d[0].get("sharding")),
         "header_scaled": sum(1 for d in done if d[0].get("slope") is not None),
         "pixdim_disagrees_with_affine": sum(1 for d in done if d[0].get("pixdim")),
+        "declared_spatial_unit": {u: sum(1 for d in done if d[0].get("xyzt") == u) for u in XYZT_UNITS},
         "generations_judged_per_case": "file, api, api2 (same image object, other sharding), store "
                                        "(same image object, storing function)"}
     ctx.notes["compact_cases"] = len(cdone)
@@ -415,6 +526,9 @@ def replay(ctx, path):
     if "matrix_hex" in d:
         M = [[float.fromhex(x) for x in row] for row in d["matrix_hex"]]
         case, res, text = ad.compact_case(M)
+    elif "history" in d:
+        work = ctx.scratch("verif_affine_")
+        case, _ = ad.run_samepath_case(work, history_from_json(d["history"]["steps"]))
     elif "rerun" in d:
         rr = d["rerun"]
         p1, p2 = plan_from_json(rr["plan1"]), plan_from_json(rr["plan2"])
